@@ -239,3 +239,21 @@ Definition tt_agrees (fixed : bool) (file : bytes) (c : ttcut) : bool :=
 Definition tt_ok_cut (ls : list bytes) (c : ttcut) : bool :=
   let '(es, ok) := read_task_txt true (text_of (fst (cut_lines ls (tt_n c)))) in
   Bool.eqb ok (tt_ok c) && (negb ok || (rows_eqb (tasks_of es) (tt_tasks c) && sess_eqb (sessions_of es) (tt_sess c))).
+
+(* any line-by-line reader: what its line parser says of one line *)
+Inductive step (E : Type) := SEntry (e : E) | SSkip | SFail | SStop.
+Arguments SEntry {E} e.
+Arguments SSkip {E}.
+Arguments SFail {E}.
+Arguments SStop {E}.
+Fixpoint run_lines {E} (parse : bytes -> step E) (ls : list bytes) : list E * bool :=
+  match ls with
+  | [] => ([], true)
+  | l :: r => match parse l with
+              | SEntry e => let '(es, ok) := run_lines parse r in (e :: es, ok)
+              | SSkip => run_lines parse r
+              | SFail => ([], false)
+              | SStop => ([], true)
+              end
+  end.
+Definition run_text {E} (parse : bytes -> step E) (f : bytes) : list E * bool := run_lines parse (getlines f).
